@@ -21,3 +21,84 @@ def gen(rng, tier):
     return [{"sx": sx({"op": Sym("flags")}), "meta": {"op": "flags"}},
             {"sx": sx({"op": Sym("flags"), "after": Sym("help")}), "meta": {"op": "flags-after-help"}}]
 SEARCH = False   # the input space is the single run-time table
+
+import re, shutil
+import build, cli
+
+# how to run a command on a small input: arguments after the command path, files to compare besides stdout
+RECIPES = {
+    "gotree brlen setrand": (["-i", "tree.nw", "--seed", "3"], []),
+    "gotree draw svg": (["-i", "big.nw", "-o", "out.svg"], ["out.svg"]),
+    "gotree draw png": (["-i", "big.nw", "-o", "out.png"], ["out.png"]),
+    "gotree draw text": (["-i", "big.nw"], []),
+}
+
+def _tables():
+    src = open(os.path.join(build.COQ, "Gen", "Flags.v")).read()
+    regs = re.findall(r'mkReg "([^"]*)" "([^"]*)" "([^"]*)" "([^"]*)" "([^"]*)" "((?:[^"]|"")*)" (true|false)', src)
+    m = re.search(r"Definition changed_sites.*?:= \[(.*?)\]\.", src, flags=re.S)
+    changed = re.findall(r'\("([^"]*)", "([^"]*)", "([^"]*)"\)', m.group(1)) if m else []
+    return regs, changed
+
+def extra(tier, seed, st):
+    """For every option-presence test found in the source (cmd.Flags().Changed): run the command with the option
+    omitted and with its documented default given explicitly; the outputs must be identical."""
+    info = {"presence_tests": 0, "evaluations": 0, "distinct_nontrivial": 0, "differentials": {}}
+    regs, changed = _tables()
+    info["presence_tests"] = len(changed)
+    if not changed:
+        return [], info
+    ok, err = cli.build_gotree()
+    if not ok:
+        return [("build", "gotree no longer builds: " + err[-400:], None)], info
+    import random
+    rng = random.Random(seed)
+    g = Gen(rng)
+    d = cli.scratch("c19-")
+    fails = []
+    try:
+        open(os.path.join(d, "tree.nw"), "w").write(newick(g.tree(ntips=10, rooted=False, maxdeg=2, lenmode="all", supmode="all")) + "\n")
+        open(os.path.join(d, "big.nw"), "w").write(newick(g.tree(ntips=40, rooted=False, maxdeg=2, lenmode="all", supmode="all")) + "\n")
+        defaults = {}
+        for r in regs:
+            defaults[(r[0], r[1])] = r[5].replace('""', '"')
+        bycmd = {}
+        for fl, cmdpath, flag in changed:
+            bycmd.setdefault(cmdpath, [])
+            if flag not in bycmd[cmdpath]:
+                bycmd[cmdpath].append(flag)
+        for cmdpath, flags in bycmd.items():
+            base, files = RECIPES.get(cmdpath, (["-i", "tree.nw"], []))
+            argv = cmdpath.split()[1:] + base
+            groups = [[f] for f in flags] + ([flags] if len(flags) > 1 else [])
+            def runit(variant):
+                sub = os.path.join(d, "run")
+                shutil.rmtree(sub, ignore_errors=True)
+                os.makedirs(sub)
+                for f in ("tree.nw", "big.nw"):
+                    shutil.copy(os.path.join(d, f), sub)
+                rc, so, se = cli.run(variant, sub)
+                return rc, [so] + [open(os.path.join(sub, f), "rb").read() if os.path.exists(os.path.join(sub, f)) else b"<missing>" for f in files]
+            omitted = runit(argv)
+            info["evaluations"] += 1
+            for grp in groups:
+                given = ["--%s=%s" % (f, defaults.get((cmdpath, f), "")) for f in grp]
+                out = runit(argv + given)
+                info["evaluations"] += 1
+                key = "%s %s" % (cmdpath, " ".join("--" + f for f in grp))
+                same = out == omitted
+                info["differentials"][key] = {"given": given, "same": same, "rc": [omitted[0], out[0]], "bytes": sum(len(b) for b in omitted[1])}
+                if omitted[0] == 0 and sum(len(b) for b in omitted[1]) > 0:
+                    info["distinct_nontrivial"] += 1
+                if not same:
+                    fails.append(("changed:" + key, "`gotree %s` gives a different result when %s (documented defaults) is passed explicitly than when omitted" % (" ".join(argv), " ".join(given)),
+                                  {"argv_omitted": argv, "argv_given": argv + given,
+                                   "out_omitted": b"\n".join(omitted[1]).decode("utf-8", "replace")[:800], "out_given": b"\n".join(out[1]).decode("utf-8", "replace")[:800]}))
+    finally:
+        shutil.rmtree(d, ignore_errors=True)
+    return fails, info
+
+MATCHERS = {
+    # open finding: brlen setrand switches mode on the PRESENCE of --min-mean and --max-mean
+    "C19-setrand-presence": lambda c: (c.get("meta") or {}).get("extra", "").startswith("changed:gotree brlen setrand --"),
+}
